@@ -315,6 +315,8 @@ class AbstractKey:
 
 
 def _is_abstract(v) -> bool:
+    if isinstance(v, GenList):
+        return False                # a list of values (produced by a generator): as concrete as its elements
     if HOST_TYPES and isinstance(v, HOST_TYPES):
         return False
     if isinstance(v, _CONCRETE):
@@ -680,6 +682,11 @@ class Interp:
             return r
         if v is TOP:
             return [TOP]
+        if isinstance(v, GenList):
+            # a generator / map / filter object is exhausted by the first iteration over it
+            items = list(v)
+            del v[:]
+            return items
         if HOST_TYPES and isinstance(v, HOST_TYPES):
             try:
                 return list(v)
@@ -1452,6 +1459,11 @@ class Interp:
                     try:
                         r = _SAFE_BUILTINS[b](*args, **kwargs)
                         if b in ('enumerate', 'zip', 'reversed'):
+                            r = GenList(r)         # materialised now; one-shot like the object it stands for
+                        for a_ in args:
+                            if isinstance(a_, GenList):
+                                del a_[:]          # consumed
+                        if b in ('enumerate', 'zip', 'reversed'):
                             r = list(r)
                         return r
                     except TypeError:
@@ -1493,7 +1505,7 @@ class Interp:
                             return TOP
                         if t:
                             out.append(x)
-                return out
+                return GenList(out)          # one-shot, like the map / filter object it stands for
             if b == 'isinstance':
                 return self._isinstance(args, node)
             if b == 'print':
